@@ -203,3 +203,30 @@ package adapter
 //@   ensures idxOK(a) [C04.index.wellformed.leave]
 //@   ensures inverse(a) [C04.index.inverse.leave]
 //@   ensures forall s SocketID :: forall r Room :: mem(a, s, r) == (old(mem(a, s, r)) && !(s == sid && r == room)) [C04.leave.neteffect]
+
+// Leave-all (what a disconnecting socket does): the socket leaves every room it was in - iterating its own room set
+// with Set.Each (iterator rule: visited(r) = r has been handed to the callback) - and is then dropped from the
+// socket -> rooms index: membership afterwards is membership before minus every pair of that socket.
+//@ func (*inMemoryAdapter).DeleteAll
+//@   opt safety off
+//@   requires a != nil && idxOK(a) && inverse(a)
+//@   modifies *
+//@   each 0 invariant idxOK(a) && (sid in a.sids) && a.sids[sid] == old(a.sids[sid]) [C04.leaveall.inv.wellformed]
+//@   each 0 invariant forall s SocketID :: forall r Room :: mem(a, s, r) == old(mem(a, s, r)) [C04.leaveall.inv.sids.untouched]
+//@   each 0 invariant forall s SocketID :: forall r Room :: rmem(a, s, r) == (old(rmem(a, s, r)) && !(s == sid && visited(r))) [C04.leaveall.inv.rooms]
+//@   ensures idxOK(a) [C04.index.wellformed.leaveall]
+//@   ensures inverse(a) [C04.index.inverse.leaveall]
+//@   ensures forall s SocketID :: forall r Room :: mem(a, s, r) == (old(mem(a, s, r)) && s != sid) [C04.leaveall.neteffect]
+
+// SocketRooms answers with a NEW set holding exactly the rooms the socket is in, and changes no membership.
+//@ func (*inMemoryAdapter).SocketRooms
+//@   opt safety off
+//@   requires a != nil && idxOK(a)
+//@   modifies *
+//@   each 0 invariant idxOK(a) && rooms != nil && salloc(rooms) && !was(salloc(rooms)) [C04.socketrooms.inv.fresh]
+//@   each 0 invariant forall s SocketID :: (s in a.sids) ==> was(salloc(a.sids[s])) [C04.socketrooms.inv.old.sets]
+//@   each 0 invariant forall s SocketID :: forall r Room :: mem(a, s, r) == old(mem(a, s, r)) [C04.socketrooms.inv.readonly]
+//@   each 0 invariant forall y string :: smem(rooms, y) == visited(y) [C04.socketrooms.inv.collects]
+//@   ensures ok == old(sid in a.sids) [C04.socketrooms.known]
+//@   ensures ok ==> (forall y string :: smem(rooms, y) == old(mem(a, sid, y))) [C04.socketrooms.exact]
+//@   ensures forall s SocketID :: forall r Room :: mem(a, s, r) == old(mem(a, s, r)) [C04.socketrooms.readonly]
